@@ -741,6 +741,11 @@ class Lab(object):
             for _ in range(dup if isinstance(dup, int) else 1):
                 rc.insert(rr.randrange(len(rc) + 1), rc[rr.randrange(len(rc))])
         e = Envelope(sender, list(rc))
+        if body is None and cfg.get('body_kb'):
+            # an envelope larger than any chunk / read size a backend may use (16 KiB AIO chunks, socket reads)
+            tail = b' of ' + m.encode() + b' ' + b'x' * 52 + b'\r\n'
+            n = int(cfg['body_kb']) * 1024 // (len(tail) + 8) + 1
+            body = b''.join(b'line %05d' % i + tail for i in range(n))
         body = body if body is not None else b'body of ' + m.encode() + b'\r\n'
         hdr = (b'From: ' + (sender.encode('utf-8') or b'<>') + b'\r\n' + MARK.encode() + b': ' + m.encode() +
                b'\r\nSubject: test ' + m.encode() + b'\r\n' + (cfg.get('extra_hdr') or b'') + b'\r\n')
